@@ -1,13 +1,25 @@
 (* Correspondence and property oracles for the brexec engine (C11, part of C01). *)
 From RV Require Export Base.Util Base.IntStr Model.BatchArith Model.BRExec.
+From RV Require Model.RolloutSM Model.Loop.
 
 Record br_obs := { bo_panic : bool; bo_err : bool; bo_gone : bool; bo_status : br_status; bo_workload : cloneset;
-                   bo_finalizer : bool; bo_requeue : bool }.
+                   bo_finalizer : bool; bo_requeue : bool;
+                   bo_view : option (bool * bool * Z * bool)   (* the Rollout harness's reading of the same object: consistent, Ready, batch, completed *) }.
 Definition case := (br_spec * br_status * cloneset * br_obs)%type.
 
 Definition ctl_eqb (a b : ctl) : bool := match a, b with CtlNone, CtlNone | CtlMine, CtlMine | CtlOther, CtlOther => true | _, _ => false end.
 Definition wl_eqb (a b : cloneset) : bool :=
   opt_eqb ios_eqb (w_partition a) (w_partition b) && Bool.eqb (w_paused a) (w_paused b) && ctl_eqb (w_ctl a) (w_ctl b).
+
+(* Model/Loop.v's br_view is how the Rollout side reads the BatchRelease the BatchRelease side wrote *)
+Definition view_agrees (sp : br_spec) (o : br_obs) : bool :=
+  match bo_view o with
+  | None => true
+  | Some (vcons, ready, batch, completed) =>
+    let v := Loop.br_view sp (bo_status o) "" "" false in
+    Bool.eqb (RolloutSM.br_consistent v) vcons && Bool.eqb (RolloutSM.br_state_ready v) ready &&
+    (RolloutSM.br_batch v =? batch) && Bool.eqb (RolloutSM.br_completed v) completed
+  end.
 
 Definition corresponds (c : case) : bool :=
   let '(sp, st, w, o) := c in
@@ -18,7 +30,7 @@ Definition corresponds (c : case) : bool :=
     (if r_finalizer r then
        negb (bo_gone o) && status_eqb (r_status r) (bo_status o) && bo_finalizer o
      else (* finalizer removed: a deleting object disappears *) (bo_gone o || negb (bo_finalizer o))) &&
-    wl_eqb (r_workload r) (bo_workload o) && Bool.eqb (r_err r) (bo_err o) &&
+    wl_eqb (r_workload r) (bo_workload o) && Bool.eqb (r_err r) (bo_err o) && view_agrees sp o &&
     Bool.eqb (match r_requeue r with RqAfter => true | RqNone => false end) (bo_requeue o)
   end.
 
@@ -72,6 +84,20 @@ Definition in_domain (c : case) : bool :=
   forallb (fun s => match s with IInt z => 0 <? z | IPct p => (0 <? p) && (p <=? 100) | IBad => false end) (sp_plan sp) &&
   negb (Nat.eqb (List.length (sp_plan sp)) 0).
 
+(* ---------- C07: a quiet BatchRelease reconcile is waiting for somebody else ----------
+   no requeue, no error, status and workload untouched: legitimate only when the release is Completed, when the sync phase
+   decided to stop (the workload controller is still reconciling, the template changed under the release, a rollback in
+   batches is being prepared: the next event is the workload's or the Rollout's), or when the current batch is Ready and
+   held by batchPartition (the Rollout's move) *)
+Definition waits_br (sp : br_spec) (st : br_status) (w : cloneset) : bool :=
+  snd (sync_status sp st w) ||
+  (brphase_eqb (bs_phase st) PhProgressing && bstate_eqb (bs_state st) SReady && is_partitioned sp st).
+Definition c07_br_quiet_means_waiting (c : case) : bool :=
+  let '(sp, st, w, o) := c in
+  if negb (bo_panic o) && negb (bo_gone o) && bo_finalizer o && negb (bo_err o) && negb (bo_requeue o) &&
+     status_eqb st (bo_status o) && wl_eqb w (bo_workload o)
+  then waits_br sp st w else true.
+
 Definition judge (c : case) : list verdict :=
   if negb (in_domain c) then [] else
   let '(sp, st, w, o) := c in
@@ -89,7 +115,8 @@ Definition judge (c : case) : list verdict :=
    [ clause "C11_ready_is_true" (ready_is_true sp st w o);
      clause "C11_never_beyond_partition" (never_beyond_partition sp st o);
      clause "C11_completed_means_released" (completed_means_released sp st w o);
-     clause "C11_falls_back" (falls_back sp st w o) ]).
+     clause "C11_falls_back" (falls_back sp st w o);
+     clause "C07_quiet_batchrelease_reconcile_is_waiting_for_someone" (c07_br_quiet_means_waiting c) ]).
 
 Definition tag (c : case) : string :=
   let '(sp, st, w, o) := c in
